@@ -770,9 +770,20 @@ func restRules(c *Check, w *World, tb *TB, ef *Effects, pfx string, only []strin
 				got[e.Lit] = e.Val
 			}
 		}
-		ok := len(got) == len(want)
+		// a documented spelling without a case of its own is served by the default (case "SHA1" next to default SHA1
+		// is redundant); an undocumented spelling with a case is a deviation
+		ok := true
+		for k := range got {
+			if _, doc := want[k]; !doc {
+				ok = false
+			}
+		}
 		for k, v := range want {
-			if got[k] != v {
+			g, has := got[k]
+			if !has {
+				g = def
+			}
+			if g != v {
 				ok = false
 			}
 		}
